@@ -343,6 +343,34 @@ def disconnect(report, db, cg, S, M, P, fi, arms):
                              % bad[0].cond_text())
         else:
             report.ok(R, 'disconnect arm calls connection.disconnect()')
+    # disconnect() leaves the connection marked as not connected on every
+    # exit -- also when the final flush fails -- because that mark is what
+    # lets the exit callback run
+    dme = sy(dc.params[0])
+    nexits = 0
+    for p in S.run(dc):
+        if p.raises and len(p.outcome) > 3 and not p.flat(('store',)):
+            continue            # failed before anything was done
+        nexits += 1
+        marks = [e for e in p.flat(('store',)) if struct(e.base) == dme
+                 and e.attr == 'connected']
+        if not marks or marks[-1].value != ('const', False):
+            report.violation(
+                R, 'disconnect:still-connected', dc.path,
+                marks[-1].node if marks else dc.node, dc.qualname,
+                'disconnect() can end (%s) with self.connected %s [%s]: the '
+                'exit callback, which is guarded by `not connected`, never '
+                'runs' % (p.outcome[0], 'left as it was' if not marks else
+                          'set to %s' % show(marks[-1].value),
+                          p.cond_text()))
+            break
+    else:
+        if nexits:
+            report.ok(R, 'disconnect() sets connected = False on all %d '
+                      'exits' % nexits)
+    if not nexits:
+        raise AnalysisError('disconnect(): no exit found', dc.node,
+                            rel(dc.path))
     hx = M.conn_method('_handle_exit')
     inlined = set((db.norm_stats or {}).get('helpers', ()))
     sites = [cs for cs in cg.callers_of(hx)
